@@ -9,29 +9,32 @@ WT=/tmp/confirm-wt
 export CARGO_TARGET_DIR=/tmp/confirm-target CARGO_NET_OFFLINE=true
 if [ ! -d $WT ]; then git -C /repo worktree add -q --detach $WT HEAD; fi
 cd $WT && git checkout -q --detach $(git -C /repo rev-parse HEAD) && git checkout -q -- . && git clean -fdq
-[ -f $SRC/patch.diff ] || { echo "no patch for $ID-$V"; exit 2; }
+PATCHF=${PATCHF:-$SRC/patch.diff}
+DEMO_DIR=${DEMO_DIR:-core/tests}
+PKG=${PKG:-open-coroutine-core}
+[ -f $PATCHF ] || { echo "no patch for $ID-$V"; exit 2; }
 DEMOS=$(ls $SRC | grep -E '\.rs$')
 FEAT=""
 grep -qiE '"(demo|needs)".*--features preemptive' $SRC/meta.json && FEAT="--features preemptive"
 grep -qiE '"(demo|needs)".*--features io_uring' $SRC/meta.json && FEAT="--features io_uring"
-for d in $DEMOS; do cp $SRC/$d core/tests/$d; done
+for d in $DEMOS; do cp $SRC/$d $DEMO_DIR/$d; done
 run_demos() {
   local rc=0
   for d in $DEMOS; do
-    timeout 900 cargo test --offline -p open-coroutine-core $FEAT --test ${d%.rs} > /tmp/confirm-$ID-$V-$1-${d%.rs}.log 2>&1 || rc=1
+    timeout 900 cargo test --offline -p $PKG $FEAT --test ${d%.rs} > /tmp/confirm-$ID-$V-$1-${d%.rs}.log 2>&1 || rc=1
   done
   return $rc
 }
 run_demos before; BEFORE=$?
-git apply $SRC/patch.diff || { echo "patch does not apply"; exit 2; }
+git apply $PATCHF || { echo "patch does not apply"; exit 2; }
 run_demos after; AFTER=$?
-for d in $DEMOS; do rm -f core/tests/$d; done
+for d in $DEMOS; do rm -f $DEMO_DIR/$d; done
 timeout 1800 cargo nextest run --workspace --no-fail-fast --test-threads 8 --offline > /tmp/confirm-$ID-$V-suite.log 2>&1; SUITE=$?
 SUM=$(grep -E "Summary" /tmp/confirm-$ID-$V-suite.log | tail -1)
 git checkout -q -- . && git clean -fdq
 echo "$ID-$V demo_before_rc=$BEFORE demo_after_rc=$AFTER suite_rc=$SUITE $SUM"
 if [ $BEFORE -eq 0 ] && [ $AFTER -ne 0 ] && [ $SUITE -eq 0 ]; then
-  mkdir -p /verif/seeded/$ID-$V && cp $SRC/patch.diff $SRC/meta.json /verif/seeded/$ID-$V/ && for d in $DEMOS; do cp $SRC/$d /verif/seeded/$ID-$V/; done
+  mkdir -p /verif/seeded/$ID-$V && cp $PATCHF /verif/seeded/$ID-$V/patch.diff && cp $SRC/meta.json /verif/seeded/$ID-$V/ && for d in $DEMOS; do cp $SRC/$d /verif/seeded/$ID-$V/; done
   printf '{"confirmed": true, "demo_on_unchanged_tree": "pass", "demo_with_patch": "fail", "suite_with_patch": "%s", "features": "%s", "base_commit": "%s"}\n' "$SUM" "$FEAT" "$(git -C /repo rev-parse --short HEAD)" > /verif/seeded/$ID-$V/confirm.json
   echo CONFIRMED
 else
